@@ -21,6 +21,7 @@ from mc import env
 FAMILIES = ('cpa', 'cpa_alt', 'dpa', 'anova', 'nicv', 'snr', 'mia', 'tplbuild', 'tplstatic', 'tpldpa', 'ttacc')
 PARTITIONED = ('anova', 'nicv', 'snr')
 CLASSES = [0, 1, 2, 3]
+AUTO_VALUES = [0, 1, 2, 40]         # label alphabet of the automatic-class-set systems (first-batch maximum 40 -> classes 0..63)
 TPL_CLASSES = [0, 1, 2]          # declared classes of the matching systems (built from 9 traces, 3 per class)
 TPLB_CLASSES = [2, 0]            # declared classes of the template-build systems (rows alternate, so every prefix of >= 4 rows is defined)
 
@@ -82,7 +83,8 @@ def make_pool(family, kind, N, S, wdims, tdt, seed, auto=False):
         if kind == 'adversarial' and N >= 3:
             Y[:, 0] = 1; Y[N - 1, 0] = 2                                  # singleton class in word 0
         if auto:
-            Y[0, :] = max(CLASSES)                                        # row 0 carries the maximum (class set frozen by the first batch)
+            Y = np.array(AUTO_VALUES)[Y]                                  # automatic class sets: labels {0,1,2,40} -> the 64-class bracket
+            Y[0, :] = max(AUTO_VALUES)                                    # row 0 carries the maximum (class set frozen by the first batch)
     Y = Y.astype('uint8').reshape((N,) + tuple(wdims))
     exact = kind != 'float'
     return X, Y, exact
@@ -222,7 +224,7 @@ class DistSystem:
             return False
         if kind in ('len', 'len_less', 'words'):
             return acc                                   # relative to EARLIER batches; as a first call they define the shape
-        if kind in ('dparange', 'autorange', 'autoneg', 'dpafloat'):
+        if kind in ('dparange', 'autorange', 'autoneg', 'dpafloat', 'dtype_small', 'dtype64_small'):
             return not acc                               # only the first call inspects the value range
         if kind == 'memory':
             return not acc                               # the memory guard is evaluated once per object
@@ -334,6 +336,14 @@ class DistSystem:
             da = da.astype('float64')
         elif kind == 'dtype64':
             da = da.astype('int64')
+        elif kind == 'dtype_small':
+            da = (da % 4).astype('float64')              # a refused batch whose values span a SMALLER range than the valid batches
+        elif kind == 'dtype64_small':
+            da = (da % 4).astype('int64')
+        elif kind == 'tplundeclared_last':
+            da = da.copy(); da.reshape(-1)[-1] = 7       # the undeclared hypothesis value sits in the LAST guess column of the last row
+        elif kind == 'traces_str':
+            tr = tr.astype('U8')                          # an ndarray, but not a numeric one
         elif kind == 'notbuilt':
             pass                                         # a perfectly valid batch, refused because the templates are not built yet
         elif kind == 'tplundeclared':
@@ -373,10 +383,10 @@ class DistSystem:
         elif f == 'dpa':
             r, d = frac.dpa(X, Y); out = [(r, d, None, None)]
         elif f in PARTITIONED:
-            cl = CLASSES
+            cl = AUTO_VALUES if self.auto else CLASSES
             r, d = frac.partitioned(X, Y, cl, f); out = [(r, d, 1.0 if f == 'nicv' else None, frac.AMP[f])]
         elif f == 'mia':
-            r, d = frac.mia(X, Y, mia_edges(self.kind), CLASSES); out = [(r, d, 1.0, None)]
+            r, d = frac.mia(X, Y, mia_edges(self.kind), AUTO_VALUES if self.auto else CLASSES); out = [(r, d, 1.0, None)]
         elif f == 'tplbuild':
             T, P, ok = frac.templates(X, Y[:, 0], TPLB_CLASSES)
             if ok:
